@@ -16,9 +16,15 @@
 (* Mode     "direct"  - a live actor object driven through the actor API   *)
 (*          "functor" - flow.Functor: every call builds a fresh actor from *)
 (*                      the builder, presets params and state              *)
-(*                      (SetParams.set / SetState.set), then acts          *)
+(*                      (SetParams.set / SetState.set), then acts; the     *)
+(*                      functor OBJECT executing instance i is the carrier *)
+(*                      car[i] chosen by Build (one object may execute     *)
+(*                      many instances / rebuilds of the same builder)     *)
 (* Variant  "asis" or one of the seeded deviations ("preset_before",       *)
-(*          "empty_resets", "pickle_drops_params") that TLC must refute.   *)
+(*          "empty_resets", "pickle_drops_params", "functor_keeps_actor" = *)
+(*          a functor object builds its actor once and keeps it between    *)
+(*          executions - and through its own pickling) that TLC must       *)
+(*          refute.                                                        *)
 (*                                                                         *)
 (* Refines: what the implementation shows (params in force, model) equals  *)
 (* the requirement-level instance of Actor.tla after every call.           *)
@@ -26,9 +32,13 @@
 EXTENDS Actor
 CONSTANTS Flavour, Mode, Variant
 VARIABLES obj,    \* Inst -> [b, ov, st, params, model]: functor registers (b, ov, st) / live object (params, model)
-          blob    \* Inst -> implementation-level bytes of snap[j]: [e(mpty), params, model]
-ivars == <<vars, obj, blob>>
+          blob,   \* Inst -> implementation-level bytes of snap[j]: [e(mpty), params, model]
+          kept    \* carrier id -> the actor objects a functor-keeps-actor implementation would hold in the train / apply
+                  \* functor of that carrier ("asis": no such thing, constant)
+ivars == <<vars, obj, blob, kept>>
 iview == <<view, obj, blob>>
+\* the seeded "functor_keeps_actor" deviation depends on who shares a functor object: nothing hidden there
+iviewK == <<view, obj, blob, kept, car, bk>>
 
 EmptyBlob == [e |-> TRUE, params |-> NoP, model |-> <<>>]
 NoObj == [b |-> NoP, ov |-> NoP, st |-> EmptyBlob, params |-> NoP, model |-> <<>>]
@@ -58,39 +68,51 @@ PresetState(o, s) ==
     IF s.e THEN o
     ELSE IF Variant = "preset_before" THEN SetStateO(SetParamsO(o, GetParamsO(o)), s)
     ELSE SetParamsO(SetStateO(o, s), GetParamsO(o))                        \* SetState.set
-Mat(r) == PresetState(PresetParams(Ctor(r.b), r.ov), r.st)                 \* Functor(builder, SetParams(SetState(action)))
-Live(i) == IF Mode = "direct" THEN [params |-> obj[i].params, model |-> obj[i].model] ELSE Mat(obj[i])
+\* Functor(builder, SetParams(SetState(action))).execute(ov, st, ...): as-is acts on builder()
+NoKept == [ht |-> FALSE, to |-> Ctor(NoP), ha |-> FALSE, ao |-> Ctor(NoP)]
+Keeps == Variant = "functor_keeps_actor"
+Base(r, c, kind) == IF Keeps /\ kind = "train" /\ kept[c].ht THEN kept[c].to
+                    ELSE IF Keeps /\ kind = "apply" /\ kept[c].ha THEN kept[c].ao
+                    ELSE Ctor(r.b)
+Mat(r, c, kind) == PresetState(PresetParams(Base(r, c, kind), r.ov), r.st)
+Live(i) == IF Mode = "direct" THEN [params |-> obj[i].params, model |-> obj[i].model] ELSE Mat(obj[i], car[i], "apply")
 Shown(i) == [params |-> Resolve(Live(i).params), model |-> Live(i).model]
 
 InitObj == IF Mode = "direct" THEN [NoObj EXCEPT !.params = Ctor(bld).params] ELSE [NoObj EXCEPT !.b = bld]
-InitI == Init /\ obj = [i \in Inst |-> IF i = 1 THEN InitObj ELSE NoObj] /\ blob = [i \in Inst |-> EmptyBlob]
-Keep == UNCHANGED <<obj, blob>>
+InitI == /\ Init /\ obj = [i \in Inst |-> IF i = 1 THEN InitObj ELSE NoObj] /\ blob = [i \in Inst |-> EmptyBlob]
+         /\ kept = [c \in 1..(Depth + 3) |-> NoKept]
+Keep == UNCHANGED <<obj, blob, kept>>
 SetLive(i, o) == obj' = [obj EXCEPT ![i].params = o.params, ![i].model = o.model]
 
-IBuild(i, ov) == /\ UNCHANGED blob
+IBuild(i, ov) == /\ UNCHANGED <<blob, kept>>
                  /\ IF Mode = "direct" THEN obj' = [obj EXCEPT ![i] = [NoObj EXCEPT !.params = Ctor(Merge(bld, ov)).params]]
                     ELSE obj' = [obj EXCEPT ![i] = [NoObj EXCEPT !.b = Merge(bld, ov)]]
 ITrain(i, d) == /\ UNCHANGED blob
-                /\ IF Mode = "direct" THEN SetLive(i, TrainO(Live(i), d))
-                   ELSE obj' = [obj EXCEPT ![i].st = GetStateO(TrainO(Mat(obj[i]), d))]      \* Train action returns get_state()
-IGetState(i) == /\ UNCHANGED obj
+                /\ IF Mode = "direct" THEN SetLive(i, TrainO(Live(i), d)) /\ UNCHANGED kept
+                   ELSE LET o == TrainO(Mat(obj[i], car[i], "train"), d) IN      \* Train action returns get_state()
+                        /\ obj' = [obj EXCEPT ![i].st = GetStateO(o)]
+                        /\ kept' = IF Keeps THEN [kept EXCEPT ![car[i]].ht = TRUE, ![car[i]].to = o] ELSE kept
+\* functor mode: the apply functor of the carrier is executed
+IApply(i) == /\ UNCHANGED <<obj, blob>>
+             /\ kept' = IF Keeps /\ Mode = "functor" THEN [kept EXCEPT ![car[i]].ha = TRUE, ![car[i]].ao = Live(i)] ELSE kept
+IGetState(i) == /\ UNCHANGED <<obj, kept>>
                 /\ blob' = [blob EXCEPT ![i] = IF Mode = "direct" THEN GetStateO(Live(i)) ELSE obj[i].st]
-ISetState(i, j) == /\ UNCHANGED blob
+ISetState(i, j) == /\ UNCHANGED <<blob, kept>>
                    /\ IF Mode = "direct" THEN SetLive(i, SetStateO(Live(i), blob[j]))
                       ELSE obj' = [obj EXCEPT ![i].st = blob[j]]
-ISetEmpty(i) == /\ UNCHANGED blob
+ISetEmpty(i) == /\ UNCHANGED <<blob, kept>>
                 /\ IF Mode = "direct" THEN SetLive(i, SetStateO(Live(i), EmptyBlob)) ELSE UNCHANGED obj
-ISetParams(i, p) == /\ UNCHANGED blob
+ISetParams(i, p) == /\ UNCHANGED <<blob, kept>>
                     /\ IF Mode = "direct" THEN SetLive(i, SetParamsO(Live(i), p))
                        ELSE obj' = [obj EXCEPT ![i].ov = Merge(@, p)]
-IPickle(i) == /\ UNCHANGED blob
+IPickle(i) == /\ UNCHANGED <<blob, kept>>          \* (a kept actor travels inside the pickled functor)
               /\ IF Mode = "direct" THEN SetLive(i, PickleO(Live(i))) ELSE UNCHANGED obj
 
 UpdateI(p) == Update(p) /\ Keep
 ResetI(p) == Reset(p) /\ Keep
-BuildI(i, ov) == Build(i, ov) /\ IBuild(i, ov)
+BuildI(i, ov) == \E c \in Carriers(ov) : BuildOn(i, ov, c) /\ IBuild(i, ov)
 TrainI(i, d) == Train(i, d) /\ ITrain(i, d)
-ApplyI(i, d) == Apply(i, d) /\ Keep
+ApplyI(i, d) == Apply(i, d) /\ IApply(i)
 GetStateI(i) == GetState(i) /\ IGetState(i)
 SetEmptyI(i) == SetEmpty(i) /\ ISetEmpty(i)
 PickleI(i) == Pickle(i) /\ IPickle(i)
